@@ -101,8 +101,17 @@ def _ensure_classes():
         VisPayload = _visual_payload_class()
 
 
+_LEGACY: dict = {}  # file name -> payload spec, for the legacy entry (payloads are plain path strings)
+
+
 def work(payload, *args, **kwargs):
     """The user function run for every payload; its behaviour is fixed by the spec."""
+    if isinstance(payload, Path) or not hasattr(payload, "behave"):
+        name = payload.name if isinstance(payload, Path) else Path(str(payload.path)).name
+        p = _LEGACY[name]
+        if p["behave"] == "ok":
+            return [p["value"], list(args), sorted(kwargs.items())]
+        raise EXC[p["exc"]](*p["exc_args"])
     if payload.behave == "ok":
         return [payload.value, list(args), sorted(kwargs.items())]
     raise EXC[payload.exc](*payload.exc_args)
@@ -132,7 +141,7 @@ def gen_spec(seed: int, config: str | None = None) -> dict:
     bug = random.Random(derive(seed, "buggify"))
     if config is None:
         config = "captured" if rng.random() < 0.85 else "uncaptured"
-    entry = rng.choice(["parproc", "parproc", "parallel_proc", "parproc_visual"])
+    entry = rng.choice(["parproc", "parproc", "parproc", "parallel_proc", "parallel_proc", "parproc_visual", "parproc_visual", "visual_legacy"])
     pool = "process" if rng.random() < 0.8 else "thread"
     cpu_count = rng.choice([1, 2, 3, 4])
     max_workers = rng.choice([None, None, 1, 1, 2, 3, 4, 5])
@@ -143,7 +152,7 @@ def gen_spec(seed: int, config: str | None = None) -> dict:
     n = max(0, min(12, n))
     p_raise = rng.choice([0.0, 0.1, 0.3, 0.6, 1.0])
     payloads = []
-    visual = entry == "parproc_visual"
+    visual = entry in ("parproc_visual", "visual_legacy")
     for k in range(n):
         p = {"key": k, "cls": "visual" if (visual or rng.random() < 0.3) else "plain", "behave": "ok",
              "value": rng.choice([k * 7, f"v{k}", [k, "x"], {"k": k}, None, 0, "", [[]]]),
@@ -170,6 +179,8 @@ def gen_spec(seed: int, config: str | None = None) -> dict:
             # raises() declared although the payload succeeds: must make no difference
             if rng.random() < 0.2:
                 p["raises"] = [rng.choice(CAPTURABLE)]
+        if entry == "visual_legacy":
+            p["raises"] = []
         payloads.append(p)
     spec = {
         "property": PROP,
@@ -199,7 +210,7 @@ def gen_spec(seed: int, config: str | None = None) -> dict:
         if mode == "runtime":
             p["exc"] = rng.choice(RUNTIME_FAMILY)
             p["raises"] = []
-        elif mode == "outside":
+        elif mode == "outside" and entry != "visual_legacy":
             p["exc"] = "ValueError"
             p["raises"] = ["KeyError"]
         else:
@@ -239,6 +250,21 @@ def canon(x):
 def build_payloads(spec: dict):
     _ensure_classes()
     out = []
+    if spec["entry"] == "visual_legacy":
+        # legacy protocol: payloads are path strings of real files (read again by the summary)
+        import os
+
+        os.makedirs("legacy", exist_ok=True)
+        _LEGACY.clear()
+        for p in spec["payloads"]:
+            name = f"file{p['key']:02d}.txt"
+            path = os.path.join("legacy", name)
+            if not os.path.exists(path):
+                with open(path, "w") as f:
+                    f.write(f"line {p['key']}\n// c\n\n")
+            _LEGACY[name] = p
+            out.append(path)
+        return out
     for p in spec["payloads"]:
         path = Path(f"/sim/file{p['key']:02d}.txt")
         text = f"line {p['key']}\n// c\n\n"
@@ -340,6 +366,14 @@ def call_entry(spec: dict, payloads, parallel: bool, sink: list):
         if spec["max_workers"] is not None:
             kw["max_workers"] = spec["max_workers"]
         return pp.parallel_proc(payloads, work, *args, **kw)
+    if entry == "visual_legacy":
+        prog = StubProgress()
+        return pp.parproc_visual(
+            work, payloads, prog, *args,
+            eprint=lambda *a, **k: sink.append(len(a)),
+            summary=spec["summary"], verbose=spec["verbose"], usecolor=False,
+            max_workers=spec["max_workers"], **kw,
+        )
     if entry == "parproc_visual":
         prog = StubProgress()
         return pp.parproc_visual(
@@ -351,9 +385,23 @@ def call_entry(spec: dict, payloads, parallel: bool, sink: list):
     raise HarnessError(f"unknown entry {entry}")
 
 
+def _key_of_task(args):
+    if not args:
+        return None
+    pl = getattr(args[0], "payload", None)
+    k = getattr(pl, "key", None)
+    if k is None and pl is not None and hasattr(pl, "path"):
+        m = __import__("re").search(r"file(\d+)\.txt$", str(pl.path))
+        k = int(m.group(1)) if m else None
+    return k
+
+
 def observe(r) -> tuple:
     """(key, outcome, exception) of one yielded Result, canonical."""
     key = getattr(r.payload, "key", None)
+    if key is None and isinstance(r.payload, (str, Path)):
+        m = __import__("re").search(r"file(\d+)\.txt$", str(r.payload))  # legacy entry: the payload is given back as its path
+        key = int(m.group(1)) if m else None
     exc = None
     if r.exception is not None:
         exc = [type(r.exception).__name__, canon(tuple(r.exception.args))]
@@ -398,7 +446,7 @@ def run(spec: dict, decider: Decider, keep_events: bool = False) -> RunResult:
         tick_max=spec["knobs"]["tick_max"],
         do_pickle=spec["pickle"],
         slow_keys=spec["faults"]["slow"],
-        keyof=lambda args: getattr(getattr(args[0], "payload", None), "key", None) if args else None,
+        keyof=lambda args: _key_of_task(args),
     )
     viol = None
     got: list[tuple] = []
@@ -581,7 +629,7 @@ def shrink_candidates(spec: dict):
 def spec_size(spec: dict) -> int:
     """Complexity measure for shrinking: JSON length plus penalties for every non-default knob."""
     n = len(canon(spec))
-    n += 30 * (spec["entry"] != "parproc") + 30 * (spec["pool"] != "process") + 20 * bool(spec["pickle"])
+    n += 30 * (spec["entry"] != "parproc") + 30 * (spec["entry"] == "visual_legacy") + 30 * (spec["pool"] != "process") + 20 * bool(spec["pickle"])
     n += 20 * (spec["pickable"] != "identity") + 10 * bool(spec["summary"]) + 10 * bool(spec["verbose"])
     n += 10 * spec["knobs"]["tick_max"] + 15 * (spec["max_workers"] or 0) + 5 * spec["cpu_count"]
     n += 10 * sum(1 for p in spec["payloads"] if p["cls"] == "visual")
